@@ -848,7 +848,9 @@ impl Ty {
                 8 => Some(i8::MAX as u64),
                 16 => Some(i16::MAX as u64),
                 32 => Some(i32::MAX as u64),
-                64 | 128 => Some(i64::MAX as u64),
+                64 => Some(i64::MAX as u64),
+                // every u64 literal fits an i128
+                128 => Some(u64::MAX),
                 _ => None,
             },
             Ty::UInt(bit_width) => match bit_width {
